@@ -134,3 +134,71 @@ def run(ctx):
     bls_aggregate_binding(ctx, 'g')
     ctx.r1('g', VERIFY_AGG, Sink('BlsSignature::aggregate', 'mithril_stm::*::BlsSignature::aggregate', 'ok'))
     batch_path_final_check(ctx, 'h')
+
+    # ---- (g) the batch: members are weighted too (F14: batch_verify_aggregates summed the member aggregates as they were, so opposite
+    # offsets on two members cancelled out and a batch of two individually rejected aggregates was accepted)
+    from core import glob_match
+    from engine import flows_forward, fn_origins
+    bls_aggregate_binding(ctx, 'g', fn_pat=BATCH_VERIFY_AGGS, sig_param='p#3', label='BlsSignature::batch_verify_aggregates', key='batch:weights:transcript',
+                          with_verify_args=False)
+    bv = ctx.try_fn('g', BATCH_VERIFY_AGGS)
+    if bv is not None:
+        body = bv.body
+        av = [c for c in body.calls() if any(glob_match('*::aggregate_verify', n) for n in c.names())]
+        m1 = [c for c in body.calls() if any(glob_match('blst::p1_affines::mult', n) or glob_match('*p1_affines*::mult', n) for n in c.names())]
+        m2 = [c for c in body.calls() if any(glob_match('blst::p2_affines::mult', n) or glob_match('*p2_affines*::mult', n) for n in c.names())]
+        problems = []
+        if not av:
+            problems.append('no aggregate_verify call')
+        if not m1 or not m2:
+            problems.append('signatures weighted at %d site(s), keys at %d' % (len(m1), len(m2)))
+        else:
+            d1 = flows_forward(body, {c.dest[0] for c in m1})
+            d2 = flows_forward(body, {c.dest[0] for c in m2})
+            from_sigs = flows_forward(body, {3})
+            for c in av:
+                locs = [a[1][0] for a in c.args if a[0] in ('copy', 'move')]
+                if not locs or locs[0] not in d1:
+                    problems.append('the signature checked by aggregate_verify is not the sum of the weighted member signatures')
+                if not any(l in d2 for l in locs[1:]):
+                    problems.append('the keys given to aggregate_verify are not the weighted member keys')
+            for c in m1 + m2:
+                sc = c.args[1]
+                og = fn_origins(bv, sc, True)
+                if not has(og, 'call:*::finalize'):
+                    problems.append('a weight (line %d) is not a hash output' % c.line)
+                elif not (sc[0] in ('copy', 'move') and sc[1][0] in from_sigs):
+                    problems.append('the weights (line %d) do not depend on the signatures of the batch' % c.line)
+            # the same weight multiplies the key and the signature of a member
+            s1 = {frozenset(o for o in fn_origins(bv, c.args[1], False)) for c in m1}
+            s2 = {frozenset(o for o in fn_origins(bv, c.args[1], False)) for c in m2}
+            if s1 != s2:
+                problems.append('keys and signatures are not multiplied by the same weights')
+        inst = 'BlsSignature::batch_verify_aggregates: every member (key, signature) is multiplied by a weight hashed from the batch before the sum is checked'
+        if problems:
+            R.violation('g', 'R5', inst, 'batch:weights', '; '.join(sorted(set(problems))), bv.loc())
+        else:
+            R.ok('g', 'R5', inst, '%d + %d weighting site(s)' % (len(m1), len(m2)), bv.loc())
+    # the members handed to the batch check are the coefficient-weighted aggregates of each proof (seed C01-5: plain sums of the
+    # signatures / keys of a member let two invalid signatures of one member cancel out)
+    AGGR = 'mithril_stm::*::BlsSignature::aggregate'
+    pb = ctx.try_fn('g', PROOF_BATCH)
+    if pb is not None:
+        body = pb.body
+        ag = [c for c in body.calls() if any(glob_match(AGGR, n) for n in c.names())]
+        bs = [c for c in body.calls() if any(glob_match(BATCH_VERIFY_AGGS, n) for n in c.names())]
+        inst = 'ConcatenationProof::batch_verify: the member keys and signatures handed to batch_verify_aggregates are the outputs of BlsSignature::aggregate'
+        d = flows_forward(body, {c.dest[0] for c in ag}) if ag else set()
+        bad = [c.line for c in bs if not all(a[0] in ('copy', 'move') and a[1][0] in d for a in c.args[1:3])]
+        if ag and bs and not bad:
+            R.ok('g', 'R5', inst, '%d aggregate site(s)' % len(ag), pb.loc())
+        else:
+            R.violation('g', 'R5', inst, 'batch:member-aggregates', 'BlsSignature::aggregate sites %d, batch_verify_aggregates sites %d, sites fed by something else: %s' % (
+                len(ag), len(bs), bad), pb.loc())
+    # ---- (a) what is put on the wire is a group element: a decoded signature / key passed the subgroup check (seed C01-3: from_bytes kept
+    # only the on-curve check; the aggregate path verifies with the group check off, so sigma + T (T of small order) verified with other bytes
+    # and the lottery could be ground)
+    for ty, fnn, checks in (('BlsSignature', 'mithril_stm::*::BlsSignature::from_bytes', ['blst::min_sig::Signature::sig_validate', 'blst::min_sig::Signature::validate']),
+                            ('BlsVerificationKey', 'mithril_stm::*::BlsVerificationKey::from_bytes', ['blst::min_sig::PublicKey::key_validate', 'blst::min_sig::PublicKey::validate'])):
+        ctx.r1('a', fnn, Sink('subgroup check of the decoded %s' % ty, checks, 'ok'))
+
